@@ -13,12 +13,31 @@ from ..gen import programs as P
 from .. import compile_common as CC
 
 ID = "C03commute"
-PROPS_FILE = "Props/C03.v"
+PROPS_FILE = "Props/C03commute.v"
 GEN_DEPS: List[str] = []
 ALLOWED_AXIOMS: List[str] = []
-THEOREMS: dict = {}
-TRUSTED = ["clause 'scale after compile = compile the pre-multiplied source' is NOT a Coq theorem: it is checked on generated "
-           "programs by the oracle (implementation) and by evaluating the compiler model on both sides inside Coq"]
+THEOREMS: dict = {
+    "C03_scale_commutes_outcome": "full",
+    "C03_scale_commutes_compile_same": "full",
+    "C03_scale_commutes_compile": "full",
+    "C03_scale_commutes_compile_ast": "full",
+    "C03_scale_commutes_compile_ast_error": "full",
+    "C03_key_scaling_injective": "full",
+    "C03_key_scaling_float_counterexample": "example",
+    "C03_scale_prog_total": "full",
+    "C03_decisive_when_equal": "full",
+    "C03_compile_parametric": "full",
+    "C03_commutes_by_running": "example",
+    "C03_examples_outcomes": "example",
+    "C03_scale_commutes_hypotheses_ex": "example",
+    "C03_equal_pair_ex": "example",
+    "C03_decisive_needed": "example",
+    "C03_decisive_needed_overflow": "example",
+}
+TRUSTED = ["clause 'scale after compile = compile the pre-multiplied source': theorem C03_scale_commutes_compile(_ast) for exact data, "
+           "exact factor and the `decisive` hypothesis (every quantity comparison the fold makes gives the same answer after scaling; "
+           "automatic when the compared amounts are exactly equal: C03_decisive_when_equal; needed: C03_decisive_needed witness at the "
+           "1e-9 isclose boundary); additionally checked on generated programs by the oracle and by evaluating the model on both sides"]
 ASSUMPTIONS: List[str] = []
 RULE = ("commute suite: accepted and rejected generated programs x exact factors (2, 3, 10, 1/2, 3/2, 1/3, 5/4); the source is "
         "re-printed with every quantity value and every number in a name multiplied by k; non-trivial = accepted with a number in it")
